@@ -1702,17 +1702,24 @@ Qed.
 (** ** Main theorems for the un-minimised automaton *)
 
 (** [trie_exact].  The statement has the form "the generator succeeds and …" because [unite] can
-    fail (conflict); under [fam_ok] it does not. *)
-Theorem trie_exact fam :
-  fam_ok fam ->
+    fail (conflict); under [fam_ok] it does not.  Only the determinism part [fam_det] of [fam_ok]
+    is used ([trie_exact_det]); the end-of-input condition is part of the specification of
+    lookahead sets but plays no role for the automaton. *)
+Theorem trie_exact_det fam :
+  fam <> [] -> fam_det fam ->
   exists d, compile fam = Ok d /\ forall u p, accepts d u p <-> In u (strings_of fam p).
 Proof.
-  intros (Hne & Hdet & _). destruct fam as [|e fam']; [congruence|].
+  intros Hne Hdet. destruct fam as [|e fam']; [congruence|].
   destruct (la_of_family_spec e fam' Hdet) as (d & paths & E & F & K).
   exists (compile_raw d). unfold compile. rewrite E. split; [reflexivity|].
   intros u p. rewrite (accepts_compile_raw d paths u p (fi_t _ _ _ F)), (fi_lang _ _ _ F).
   apply in_entries.
 Qed.
+
+Theorem trie_exact fam :
+  fam_ok fam ->
+  exists d, compile fam = Ok d /\ forall u p, accepts d u p <-> In u (strings_of fam p).
+Proof. intros (Hne & Hdet & _). apply (trie_exact_det fam Hne Hdet). Qed.
 
 Lemma SS_app {A} (R : A -> A -> Prop) l1 l2 :
   StronglySorted R l1 -> StronglySorted R l2 ->
